@@ -37,6 +37,91 @@ var c19KeepReq = regexp.MustCompile(`^return|stream\.Send\(|SendResponse\(|pipel
 // the group-by collect: the error branch of CollectTagValues and what it does with the error
 var c19KeepCollect = regexp.MustCompile(`CollectTagValues\(|^if err != nil|[sS]endResponse\(|^return|reduceTagValues\(`)
 
+var c19KeepPlanNode = regexp.MustCompile(`^return|p\.op\.Execute\(\)|^if p\.op == nil|\.Stats\(\)`)
+
+// c19PlanNodeReturnsOpErr: the error variable is assigned only from p.op.Execute(); every return
+// after that call is a bare return of the named result or returns that variable; `nil` is returned
+// only by the `p.op == nil` guard.
+func c19PlanNodeReturnsOpErr(fd *ast.FuncDecl) bool {
+	isOpExec := func(e ast.Expr) bool { return types.ExprString(e) == "p.op.Execute()" }
+	errVar := ""
+	named := false
+	if rs := fd.Type.Results; rs != nil && len(rs.List) > 0 {
+		last := rs.List[len(rs.List)-1]
+		if len(last.Names) > 0 {
+			errVar, named = last.Names[len(last.Names)-1].Name, true
+		}
+	}
+	ok := true
+	assigned := false
+	// assignments to the error variable, anywhere (closures included)
+	ast.Inspect(fd.Body, func(n ast.Node) bool {
+		as, isAs := n.(*ast.AssignStmt)
+		if !isAs {
+			return true
+		}
+		for i, l := range as.Lhs {
+			id, isID := l.(*ast.Ident)
+			if !isID || len(as.Rhs) != len(as.Lhs) {
+				continue
+			}
+			if isOpExec(as.Rhs[i]) {
+				if errVar == "" {
+					errVar = id.Name
+				}
+				if id.Name == errVar {
+					assigned = true
+				}
+			} else if id.Name == errVar && errVar != "" {
+				ok = false // the error is overwritten
+			}
+		}
+		return true
+	})
+	if !assigned {
+		return false
+	}
+	// return statements of the function itself (not of closures)
+	var walk func(list []ast.Stmt, guard bool)
+	walk = func(list []ast.Stmt, guard bool) {
+		for _, st := range list {
+			switch x := st.(type) {
+			case *ast.ReturnStmt:
+				switch {
+				case len(x.Results) == 0:
+					if !named {
+						ok = false
+					}
+				case guard && types.ExprString(x.Results[len(x.Results)-1]) == "nil":
+				default:
+					if types.ExprString(x.Results[len(x.Results)-1]) != errVar {
+						ok = false
+					}
+				}
+			case *ast.IfStmt:
+				walk(x.Body.List, types.ExprString(x.Cond) == "p.op == nil")
+				if b, isB := x.Else.(*ast.BlockStmt); isB {
+					walk(b.List, false)
+				} else if x.Else != nil {
+					walk([]ast.Stmt{x.Else}, false)
+				}
+			case *ast.BlockStmt:
+				walk(x.List, guard)
+			case *ast.ForStmt:
+				walk(x.Body.List, false)
+			case *ast.RangeStmt:
+				walk(x.Body.List, false)
+			case *ast.SwitchStmt:
+				for _, cl := range x.Body.List {
+					walk(cl.(*ast.CaseClause).Body, false)
+				}
+			}
+		}
+	}
+	walk(fd.Body.List, false)
+	return ok
+}
+
 func c19Steps(body *ast.BlockStmt) []string { return c19StepsKeep(body, c19Keep) }
 
 func c19StepsKeep(body *ast.BlockStmt, keep *regexp.Regexp) []string {
@@ -250,6 +335,18 @@ func init() {
 			}
 			sb.WriteString("def baseStage" + fn + "Steps : List String := " + LeanStrList(c19Steps(fd.Body)) + "\n\n")
 		}
+		// planNode.ExecuteWithStats: the operator's error must reach the stage whatever the stats are
+		_, pnf, err := ParseFile(repo, "query/stage/plan_node.go")
+		if err != nil {
+			return "", err
+		}
+		ews := FindFunc(pnf, "planNode", "ExecuteWithStats")
+		if ews == nil {
+			return "", fmt.Errorf("planNode.ExecuteWithStats not found")
+		}
+		sb.WriteString("def planNodeExecuteWithStatsSteps : List String := " + LeanStrList(c19StepsKeep(ews.Body, c19KeepPlanNode)) + "\n\n")
+		sb.WriteString("/-- every return site of planNode.ExecuteWithStats after the operator ran returns the operator's own error -/\n")
+		sb.WriteString(fmt.Sprintf("def planNodeReturnsOperatorError : Bool := %v\n\n", c19PlanNodeReturnsOpErr(ews)))
 		_, plf, err := ParseFile(repo, "internal/concurrent/pool.go")
 		if err != nil {
 			return "", err
